@@ -21,6 +21,8 @@ static secrets SA, SB;
 static unsigned char sink[128];
 alignas(64) static unsigned char OBJ[4096];
 
+/* destruction through a pointer to the common base class (what delete on an ascon::aead * or a unique_ptr<ascon::aead> does) */
+__attribute__((noinline)) static void destroy_through_base(ascon::aead *p) { p->~aead(); }
 /* keep the scenario out of line so that the compiler sees exactly what a user's function would contain */
 template <class T> __attribute__((noinline)) static void cipher_scenario(void *mem, const secrets *s, const int *h, int hl, int terminal, size_t klen)
 {
@@ -36,6 +38,7 @@ template <class T> __attribute__((noinline)) static void cipher_scenario(void *m
         }
     }
     if (terminal == 0) o->~T();
+    else if (terminal == 2) destroy_through_base(o);
     else o->clear();
 }
 template <class T> __attribute__((noinline)) static void cipher_finish(void *mem) { static_cast<T *>(mem)->~T(); }
@@ -70,7 +73,7 @@ template <class X> __attribute__((noinline)) static void xof_scenario(void *mem,
 
 typedef void (*scen)(const secrets *, const int *, int, int);
 struct ctype { const char *name; size_t size; int terminals; scen fn; void (*finish)(void *); };
-#define CIPHER(T, kl) {#T, sizeof(ascon::T), 2, [](const secrets *s, const int *h, int hl, int term) { cipher_scenario<ascon::T>(OBJ, s, h, hl, term, kl); }, cipher_finish<ascon::T>}
+#define CIPHER(T, kl) {#T, sizeof(ascon::T), 3, [](const secrets *s, const int *h, int hl, int term) { cipher_scenario<ascon::T>(OBJ, s, h, hl, term, kl); }, cipher_finish<ascon::T>}
 #define HASHT(T) {#T, sizeof(ascon::T), 1, [](const secrets *s, const int *h, int hl, int) { hash_scenario<ascon::T>(OBJ, s, h, hl); }, 0}
 #define XOFT(T) {#T, sizeof(ascon::T), 1, [](const secrets *s, const int *h, int hl, int) { xof_scenario<ascon::T>(OBJ, s, h, hl); }, 0}
 static const ctype TYPES[] = {
@@ -98,16 +101,16 @@ int main(int argc, char **argv)
                 hist++;
                 if (memcmp(s1, s2, t->size)) {
                     size_t off = 0; while (s1[off] == s2[off]) off++;
-                    char kb[96], hs[32] = ""; snprintf(kb, sizeof kb, "residue:cpp:%s:%s", t->name, term ? "clear" : "destructor");
+                    char kb[96], hs[32] = ""; snprintf(kb, sizeof kb, "residue:cpp:%s:%s", t->name, term == 1 ? "clear" : term == 2 ? "destructor-through-base" : "destructor");
                     for (int i = 0; i < hl; i++) { size_t l = strlen(hs); snprintf(hs + l, sizeof hs - l, "%d", h[i]); }
-                    hx_fail(kb, "after %s, byte %zu of the %zu-byte object still depends on the secrets (operation history [%s])", term ? "clear()" : "the destructor", off, t->size, hs);
+                    hx_fail(kb, "after %s, byte %zu of the %zu-byte object still depends on the secrets (operation history [%s])", term == 1 ? "clear()" : term == 2 ? "destruction through an ascon::aead pointer" : "the destructor", off, t->size, hs);
                 }
             }
         }
         hx_stat("object_types", 1);
     }
     hx_stat("states", hist); hx_stat("transitions", hist * 2); hx_stat("traces_validated", hist * 2);
-    hx_sample("C++ objects: %zu classes x {destructor, clear()} x every history of length <= %d over 4 operations; two secret assignments; object bytes compared", sizeof TYPES / sizeof TYPES[0], maxh);
+    hx_sample("C++ objects: %zu classes x {destructor, clear(), destructor through the base class} x every history of length <= %d over 4 operations; two secret assignments; object bytes compared", sizeof TYPES / sizeof TYPES[0], maxh);
     hx_finish();
     return 0;
 }
